@@ -39,6 +39,8 @@ structure MiscState where
   retained : Option FinMap := none
   subs : AMap FinMap := []
   xsubs : AMap FinMap := []
+  /-- subscribers of the NewStatic singleton whose handler was unregistered: its contents at that moment -/
+  xfrozen : AMap FinMap := []
   /-- subscribers registered without existing state while results were being discarded: what they hold
       for the keys of the discarding inputs is an unknown earlier result, those keys are not checked -/
   blind : List String := []
@@ -134,9 +136,12 @@ def stepMisc (m : MiscState) (toks : List String) : MiscState × String :=
     ({ m with xsubs := AMap.set m.xsubs name (if kind == "nostate" then cfgContents m else []) }, "ok")
   | "xstream" :: name :: evs =>
     ({ m with quiet := true }, "xstream " ++ match parseEvents evs, AMap.lookup m.xsubs name with
-      | some es, some m0 => showVerdict m0 es (cfgContents m)
+      | some es, some m0 => showVerdict m0 es ((AMap.lookup m.xfrozen name).getD (cfgContents m))
       | none, _ => "reject:malformed-event"
       | _, none => "unknown-subscriber")
+  | ["xunsub", name] =>
+    (if (AMap.lookup m.xsubs name).isSome && (AMap.lookup m.xfrozen name).isNone
+      then { m with quiet := true, xfrozen := AMap.set m.xfrozen name (cfgContents m) } else { m with quiet := true }, "ok")
   | ["sub", name, kind] =>
     if !m.started then (m, "ok")
     else
@@ -195,6 +200,8 @@ def stepIdxc (x : IdxcState) (toks : List String) : IdxcState × String :=
   | ["sub", name, kind] =>
     if !x.started then (x, "ok")
     else ({ x with subs := AMap.set x.subs name (if kind == "nostate" then idxcContents x else []) }, "ok")
+  | ["icsub", _] => (x, "ok")     -- a handler on the index collection itself (its events are Add / Delete only, by
+  | ["icunsub", _] => (x, "ok")   -- design not a well-formed stream): only "nothing arrives after UnregisterHandler" is judged
   | ["list"] => if !x.started then (x, "list not-started") else (x, "list " ++ showMap (idxcContents x))
   | ["ilist"] => if !x.started then (x, "ilist not-started") else (x, "ilist " ++ showMap (idxcContents x))
   | ["get", k] =>
@@ -227,13 +234,24 @@ structure InfState where
   objs : AMap (String × String) := []     -- key ↦ (namespace, value)
   subs : AMap FinMap := []
   isubs : AMap FinMap := []
+  ifrozen : AMap FinMap := []
+  only1 : Bool := false
 
-def infContents (x : InfState) : FinMap := x.objs.map (fun kv => (kv.1, kv.2.2))
-def infDerived (x : InfState) : FinMap := x.objs.map (fun kv => (kv.1, "d:" ++ kv.2.2))
+/-- the objects the informer holds: all, or (cases flagged `fn`: `NewFilteredInformer` with a namespace
+    filter) those of namespace n1 -/
+def infVisible (x : InfState) : AMap (String × String) :=
+  if x.only1 then x.objs.filter (fun kv => kv.2.1 == "n1") else x.objs
+
+def infContents (x : InfState) : FinMap := (infVisible x).map (fun kv => (kv.1, kv.2.2))
+/-- the derived collection: `d:<value>`, and for objects named `a` a mark when `<ns>/b` exists
+    (`krt.ResourceExists`) -/
+def infDerived (x : InfState) : FinMap :=
+  (infVisible x).map (fun kv => (kv.1, "d:" ++ kv.2.2 ++
+    (if kv.1 == kv.2.1 ++ "/a" && (AMap.lookup (infVisible x) (kv.2.1 ++ "/b")).isSome then "+b" else "")))
 
 def stepInf (x : InfState) (toks : List String) : InfState × String :=
   match toks with
-  | "case" :: _ => ({}, "ok")
+  | "case" :: rest => ({ only1 := rest.contains "fn" }, "ok")
   | ["k.create", ns, name, val] =>
     let k := ns ++ "/" ++ name
     if (AMap.lookup x.objs k).isSome then (x, "exists")
@@ -259,7 +277,7 @@ def stepInf (x : InfState) (toks : List String) : InfState × String :=
       | none => "none"
       | some v => v)
   | ["ilookup", ns] =>
-    (x, "ilookup " ++ showMap ((x.objs.filter (fun kv => kv.2.1 == ns)).map (fun kv => (kv.1, kv.2.2))))
+    (x, "ilookup " ++ showMap (((infVisible x).filter (fun kv => kv.2.1 == ns)).map (fun kv => (kv.1, kv.2.2))))
   | "stream" :: name :: evs =>
     (x, "stream " ++ match parseEvents evs, AMap.lookup x.subs name with
       | some es, some m0 => showVerdict m0 es (infDerived x)
@@ -267,9 +285,12 @@ def stepInf (x : InfState) (toks : List String) : InfState × String :=
       | _, none => "unknown-subscriber")
   | "istream" :: name :: evs =>
     (x, "istream " ++ match parseEvents evs, AMap.lookup x.isubs name with
-      | some es, some m0 => showVerdict m0 es (infContents x)
+      | some es, some m0 => showVerdict m0 es ((AMap.lookup x.ifrozen name).getD (infContents x))
       | none, _ => "reject:malformed-event"
       | _, none => "unknown-subscriber")
+  | ["iunsub", name] =>
+    (if (AMap.lookup x.isubs name).isSome && (AMap.lookup x.ifrozen name).isNone
+      then { x with ifrozen := AMap.set x.ifrozen name (infContents x) } else x, "ok")
   | _ => (x, "bad-op")
 
 end IstioModel.C16
